@@ -382,6 +382,7 @@ impl Sub for VerifyDiff {
             }
         };
         let got = api::verify(&c.msg.0, &sig, &pk);
+        ensure!(api::verify(&c.msg.0, &sig, &pk) == got, "verify:not-repeatable", "verifying the same triple twice in a row gives two different answers");
         let bound = params(c.n).bound;
         let outcome = refimpl::verify::spec_verify_traced(&c.msg.0, &c.sig.0, &c.pk.0, c.n, false);
         let want = match &outcome {
